@@ -424,11 +424,13 @@ def analyse(chk_loc, chk_thr, results, seed):
         if loc_fail_cfgs:
             # minimal witness: the smallest thread count that fails
             cfg, bad = min(loc_fail_cfgs, key=lambda cb: (int(cb[0]["OMP_NUM_THREADS"]), cb[0]["rep"]))
-            one_per_thread_ok = any(int(c["OMP_NUM_THREADS"]) >= n for c in loc_ok_cfgs) and not any(
-                int(c["OMP_NUM_THREADS"]) >= n for c, _ in loc_fail_cfgs)
+            # one frame per thread is only guaranteed with >= n threads AND OMP_DYNAMIC=false (with dynamic adjustment the
+            # runtime may start fewer threads than requested)
+            one = lambda c: int(c["OMP_NUM_THREADS"]) >= n and c["OMP_DYNAMIC"] == "false"
+            one_per_thread_ok = any(one(c) for c in loc_ok_cfgs) and not any(one(c) for c, _ in loc_fail_cfgs)
             singles_consistent = not any(k == "identical-single-frames-differ" for k, _ in bad)
             wc = f"{_base(name)}:frames-sharing-a-thread" if (one_per_thread_ok and singles_consistent) else f"{_base(name)}:frame-in-company"
-            r = dict(results)[_key(cfg)] if False else [o for c, o in results if c is cfg][0][name]
+            r = [o for c, o in results if c is cfg][0][name]
             chk_loc.fail("frame-locality", wc,
                          f"{name}: the result for a frame depends on the other frames in the call ({bad[0][0]} at position {bad[0][1]}; "
                          f"trajectory layout {LAYOUT} = indices of distinct frames) under {_envof(cfg)}; "
@@ -454,10 +456,6 @@ def analyse(chk_loc, chk_thr, results, seed):
                              observed=r["full"], expected=ref["full"])
             else:
                 chk_thr.ok(nontrivial=(name, cfg["OMP_NUM_THREADS"], cfg["OMP_SCHEDULE"], cfg["OMP_DYNAMIC"]))
-
-
-def _key(cfg):
-    return cfg
 
 
 def _base(name):
